@@ -52,16 +52,22 @@ class OrderedSet(collections.abc.MutableSet):
         return OrderedSet(self.impl.keys())
 
     def __le__(self, other):
+        assert not isinstance(other, str)  # treat string as atomic value, not iterable
+        other = set(other)
         return all(e in other for e in self)
 
     def __lt__(self, other):
-        return (self <= other) and (self != other)
+        assert not isinstance(other, str)  # treat string as atomic value, not iterable
+        other = set(other)
+        return all(e in other for e in self) and (len(self) < len(other))
 
     def __ge__(self, other):
         return all(e in self for e in other)
 
     def __gt__(self, other):
-        return (self >= other) and (self != other)
+        assert not isinstance(other, str)  # treat string as atomic value, not iterable
+        other = set(other)
+        return all(e in self for e in other) and (len(self) > len(other))
 
     def __repr__(self):
         return "OrderedSet([%s])" % (", ".join(map(repr, self.impl.keys())))
